@@ -274,9 +274,31 @@ func moduleObligations(ld *Loaded, specs *SpecDB, prop, repo string) []*ObResult
 		}
 		add("C17 C18 C15", scanOb("module/fs-writers-only-in-run", okW, fmt.Sprintf("functions calling file-system-writing APIs: %v (%v)", writers, fsWriteIn)))
 	}
+	// type and import text is rendered only while the template executes, i.e. after every import and variable
+	// of every mock has been registered: the contracts of Var.TypeString / Package.Qualifier describe the text
+	// in terms of the registry state at the time of the call, and the properties speak about the final state
+	if hasProp([]string{"C01", "C02", "C09", "C10", "C11"}, prop) {
+		renderers := map[string]bool{"registry.Var.TypeString": true, "registry.Var.packageQualifier": true,
+			"template.ParamData.TypeString": true, "template.ParamData.MethodArg": true, "template.MethodData.ArgList": true,
+			"template.MethodData.ReturnArgTypeList": true, "template.templateFuncs[ImportStatement]": true, "template.templateFuncs[SyncPkgQualifier]": true}
+		var early []string
+		for callee, cs := range moduleCallers(ld) {
+			if !renderers[callee] {
+				continue
+			}
+			for c := range cs {
+				if !strings.HasPrefix(c, "template.") && !strings.HasPrefix(c, "registry.Var.") {
+					early = append(early, c+" calls "+callee)
+				}
+			}
+		}
+		sort.Strings(early)
+		add("C01 C02 C09 C10 C11", scanOb("module/rendering-only-under-template-execution", len(early) == 0,
+			"type strings and import statements are rendered by package template only (after registration is complete); rendered ahead of time: "+strings.Join(early, "; ")))
+	}
 	// template obligations
 	switch prop {
-	case "C01", "C02", "C03", "C04", "C05", "C06", "C07", "C08", "C09", "C13", "C14", "C16", "C19", "C20":
+	case "C01", "C02", "C03", "C04", "C05", "C06", "C07", "C08", "C09", "C10", "C11", "C13", "C14", "C16", "C19", "C20":
 		text, ok := templateText(ld)
 		add("C01 C16 C19", tplOb("template/constant-extracted", ok, "moqTemplate must be initialised with a string constant"))
 		if !ok {
@@ -395,6 +417,37 @@ func moduleObligations(ld *Loaded, specs *SpecDB, prop, repo string) []*ObResult
 		sort.Strings(badIdent)
 		add("C02 C03 C04 C08", tplOb("template/method-identifiers-verbatim", len(badIdent) == 0,
 			"method, function-field, accessor, reset, lock and record-list identifiers are the method name unmodified: "+strings.Join(badIdent, "; ")))
+		// every field or method of the template data that the template reads is one whose content a contract
+		// specifies (Mock/methodData/typeParams postconditions for the fields, contracts in package template for
+		// the methods): A-tmpl only says the template is executed on the data, so a datum no contract speaks
+		// about (e.g. text rendered ahead of time, before the import set is final) is an unspecified input
+		dataNames := map[string]bool{}
+		for _, n := range strings.Fields("PkgName SrcPkgQualifier Imports Mocks StubImpl SkipEnsure WithResets InterfaceName MockName TypeParams Methods Name Params Returns Constraint Var Variadic String") { // String: go/types Type.String on .Constraint (dependency)
+			dataNames[n] = true
+		}
+		identRe := regexp.MustCompile(`\.([A-Za-z_][A-Za-z0-9_]*)`)
+		var unspecified []string
+		for _, group := range [][]string{actions, ranges, ifs} {
+			for _, a := range group {
+				for _, m := range identRe.FindAllStringSubmatch(a, -1) {
+					if dataNames[m[1]] {
+						continue
+					}
+					found := false
+					for fname, fsp := range specs.Funcs {
+						if strings.HasPrefix(fname, "template.") && strings.HasSuffix(fname, "."+m[1]) && !specs.Void[fname] && fsp != nil {
+							found = true
+						}
+					}
+					if !found {
+						unspecified = appendUnique(unspecified, m[1])
+					}
+				}
+			}
+		}
+		sort.Strings(unspecified)
+		add("C01 C02 C09 C10 C11 C12 C13", tplOb("template/data-under-contract", len(unspecified) == 0,
+			"every template-data field or method the template reads is specified by a contract; not specified: "+strings.Join(unspecified, ", ")))
 		add("C20", tplOb("template/one-type-per-mock", strings.Count(text, "\ntype {{.MockName}}") == 1 && strings.Contains(text, "{{range $i, $mock := .Mocks}}"),
 			"one struct declaration per element of .Mocks, in order"))
 	}
